@@ -6,6 +6,7 @@ import typing
 
 from vf import common, driver, reqs, sites, validate
 from vf.common import Check, Scratch
+from vf.trees import Tree
 
 
 def slug(text: str, n: int = 5) -> str:
@@ -41,6 +42,8 @@ def hostile_requests(rng, model, full: bool) -> typing.List[typing.Tuple[str, by
            b"/cgi.sh?a b", b"/cgi.sh|x", b"/echo.pyg?q", b"/umn/one.txt\x00", b"/\x00",
            b"/1/umn", b"/0/umn/one.txt", b"/x/", b"URL:http://example.org/", b"/URL:http://e.org/a b",
            b"/URL:x", b"/URL:http://e.org/\"q", b"/" + b"A" * 3000,
+           # numbers longer than the interpreter converts (int() refuses more than 4300 digits)
+           b"/mail.mbox|/MBOX-MESSAGE/" + b"9" * 4400, b"/md|/MAILDIR-MESSAGE/" + b"1" * 5000, b"/mail.mbox|/MBOX-MESSAGE/-" + b"9" * 4400,
            # NUL in front of, inside and behind the real part of selectors that carry a virtual argument
            b"/mail.mbox\x00|/MBOX-MESSAGE/1", b"/\x00/mail.mbox|/MBOX-MESSAGE/2", b"/mail\x00.mbox?/MBOX-MESSAGE/1", b"/nope\x00|/MBOX-MESSAGE/1",
            b"/md\x00|/MAILDIR-MESSAGE/1", b"/\x00|/MAILDIR-MESSAGE/1", b"/cgi.sh\x00?x", b"/cgi.sh?x\x00y", b"/echo.pyg\x00|q", b"/arch.zip\x00/inner.txt",
@@ -52,7 +55,7 @@ def hostile_requests(rng, model, full: bool) -> typing.List[typing.Tuple[str, by
     # a real object's selector with a '.' or empty component appended or inserted: names the same directory to the file
     # system, is no selector the server ever advertised
     for o in objs:
-        for suffix in (b"/.", b"/", b"/.\\", b"/%2e", b"/. "):
+        for suffix in (b"/.", b"/", b"//", b"///", b"/.\\", b"/%2e", b"/. ", b"/%2f", b"/%2F/"):
             for view in ("gopher", "gopherp$", "http", "wap", "gemini", "spartan", "gophers"):
                 if reqs.VIEWS[view][0] in ("gopher", "gopherp") and suffix.startswith(b"/%"):
                     continue
@@ -68,6 +71,15 @@ def hostile_requests(rng, model, full: bool) -> typing.List[typing.Tuple[str, by
         view = rng.choice(list(reqs.VIEWS))
         data, tls = reqs.render(view, sel)
         add("trav:" + view, data, tls)
+    # NUL and other control bytes in the search string of scripts, PYG modules and ordinary objects
+    for sel in (b"/cgi.sh", b"/echo.pyg", b"/umn", b"/gm/local.txt", b"/mail.mbox"):
+        for q in (b"a\x00b", b"\x00", b"a\x01b", b"a\x7fb", b"\xff\x00", b"a\rb"):
+            for view in ("gopher", "gopherp+", "http", "wap", "gemini", "spartan"):
+                try:
+                    data, tls = reqs.render(view, sel, q)
+                except Exception:
+                    continue
+                add("control-bytes-in-search:" + view, data, tls)
     # Gopher+ malformations
     for sel in (b"/", b"/umn", b"/umn/one.txt", b"/nope", b""):
         for tail in (b"\t", b"\t\t", b"\t \t", b"\t\t+", b"\tq\t", b"\t+\tx\ty", b"\t$junk", b"\t+text/plain",
@@ -195,7 +207,9 @@ def run_site(chk: Check, sc: Scratch, idx: int, nhist: int, histlen: int) -> Non
     run = Runner(chk)
     for hl_name, hl in (("default", None), ("full", driver.HANDLERS_FULL_REWRITE)):
         full = hl is not None
-        site = driver.Site(root, handlers=hl, overrides={("handlers.dir.DirHandler", "cachetime"): "180"})
+        # the shipped configuration logs to syslog; the full handler list is run with the file logger
+        site = driver.Site(root, handlers=hl, overrides={("handlers.dir.DirHandler", "cachetime"): "180",
+                                                         ("logger", "logmethod"): "file" if full else "syslog"})
         try:
             # A: well-formed requests, pristine tree -> baselines
             driver.clean_server_files(root)
@@ -305,6 +319,41 @@ def run_site(chk: Check, sc: Scratch, idx: int, nhist: int, histlen: int) -> Non
             site.close()
 
 
+def symlinked_directory(chk: Check, sc: Scratch) -> None:
+    """A directory that is also reachable through a symbolic link inside the site: listing one name must not
+    change what the other name's listing says (they share one directory on disk, hence one cache file)."""
+    root = sc.sub("symdir")
+    t = Tree().file("dir/a.txt", "a\n").file("dir/b.txt", "b\n").file("dir/sub/c.txt", "c\n")
+    t.symlink("link", "dir")
+    t.symlink("deep/er/link2", "../../dir")
+    t.materialize(root)
+    site = driver.Site(root, overrides={("handlers.dir.DirHandler", "cachetime"): "180"})
+    try:
+        names = [b"/dir", b"/link", b"/deep/er/link2"]
+        alone = {}
+        for sel in names:
+            for view in ("gopher", "http", "gemini"):
+                driver.clean_server_files(root)
+                req, tls = reqs.render(view, sel)
+                alone[(sel, view)] = validate.normalize_ts(site.request(req, tls=tls).data)
+        driver.clean_server_files(root)
+        import itertools
+        for first, second in itertools.permutations(names, 2):
+            for view in ("gopher", "http", "gemini"):
+                driver.clean_server_files(root)
+                site.request(reqs.render("gopher", first)[0])
+                req, tls = reqs.render(view, second)
+                got = validate.normalize_ts(site.request(req, tls=tls).data)
+                chk.count("symlinked_directory_pairs")
+                if got != alone[(second, view)]:
+                    chk.witness("C03/directory-reached-through-a-symlink-shares-its-cache-file",
+                                {"listed_first": first, "then": second, "view": view, "alone": alone[(second, view)][:200], "after": got[:200]})
+                    return
+                chk.case(("symlinked-directory", first, second, view), None)
+    finally:
+        site.close()
+
+
 def main() -> int:
     chk = Check("C03", "exploration")
     quick = chk.tier == "quick"
@@ -315,6 +364,8 @@ def main() -> int:
         with Scratch("c03") as sc:
             for i in range(nsites):
                 run_site(chk, sc, i, nhist=10 if quick else 30, histlen=30)
+            if quick or chk.args.shard == 0:
+                symlinked_directory(chk, sc)
     return chk.finish(
         rule="each case = one request sent over a real socket to the real connection handler; distinct "
              "non-trivial = distinct (request class, protocol class that answered, handler class, response "
